@@ -9,13 +9,19 @@ PROPS["C18"] = dict(
     check_fn="check_case",
     coq_shard=16,          # ~30 kB of Coq per case: small shards keep every coqc short
     coq_case_timeout=3000,
-    streams=[dict(name="main", quick=240, thorough=8000),
-             dict(name="zerotime", quick=32, thorough=800)],
+    streams=[dict(name="main", quick=200, thorough=7000),
+             dict(name="zerotime", quick=24, thorough=600),
+             dict(name="genesis", quick=48, thorough=1400)],
     rule="histories of 10-40 (thorough: 10-100) operations plus a tail of blocks: random requests by 5 consumers "
          "(intervals 0-11, a few far ones up to 2^62 that stay pending, a few around 2^63 / 2^64 that are rejected; plain and oracle-seeded; ~6% malformed; a requester asks twice in one block in ~10% of its requests), block "
          "boundaries with a chosen header (time step 0, 1-7 s or up to 2^36; start time 1, small, 1.7e9, 2^33 or up to 2^37; "
          "app hash from a pool incl. empty and repeated), provider responses (valid seed, malformed, error result, wrong provider), "
-         "transfers emptying a consumer; stream zerotime: block times around 0; "
+         "transfers emptying a consumer; in a quarter of the histories the module's pending queue goes through ExportGenesis -> JSON -> wipe -> "
+         "InitGenesis one or more times (mostly right after two requesters, and one requester from two blocks, have "
+         "become pending for one height); stream zerotime: block times around 0; stream genesis: the history starts "
+         "from (and later loads more of) pending requests put in through InitGenesis - oracle requests whose service "
+         "context id the service module does not know (40-byte or short), so that they cannot be started when they "
+         "fall due, and plain ones - mixed with ordinary requests, always with restarts; "
          "non-trivial = at least two requests are fulfilled in one block; distinct = by hash of the history",
     codes={1: "not-fulfilled-on-time", 2: "result-without-due-request", 3: "read-back-changed",
            4: "value-not-20-digit-unit-decimal", 5: "pending-queue-wrong", 6: "value-depends-on-more",
